@@ -198,7 +198,7 @@ Section CanonProofs.
       destruct (contains_char ":" first).
       - destruct (span (contains_char ":") r1) as [bs r2].
         destruct (map_opt parse_range (first :: bs)) as [bounds|]; [|discriminate].
-        destruct (bounds_size bounds <=? 0)%Z; [discriminate|].
+        destruct (bounds_size bounds <=? 0)%Z; [destruct (bounds_size bounds <? 0)%Z; discriminate|].
         destruct (expand_ints SC e (Z.to_nat (bounds_size bounds)) r2 []) as [[us r3]|]; [|discriminate].
         cbn [bind] in H. destruct (span numeric_start r3) as [ps r'].
         destruct (map_opt (pyfloat e) ps); [|discriminate].
@@ -249,7 +249,7 @@ Section CanonProofs.
              destruct (contains_char ":" first);
              [destruct (span (contains_char ":") r1) as [bs r2];
               destruct (map_opt parse_range (first :: bs)) as [bounds|]; [|discriminate];
-              destruct (bounds_size bounds <=? 0)%Z; [discriminate|];
+              destruct (bounds_size bounds <=? 0)%Z; [destruct (bounds_size bounds <? 0)%Z; discriminate|];
               destruct (expand_ints SC e (Z.to_nat (bounds_size bounds)) r2 []) as [[us r3]|]; [|discriminate];
               cbn [bind] in H; destruct (span numeric_start r3) as [ps r'];
               destruct (map_opt (pyfloat e) ps); [|discriminate];
@@ -1123,3 +1123,164 @@ Lemma example_no_density {T : Type} (SC : Scalar T) (v0 v1 : T) :
   Ok (mkCell "2" None " -1 " v1 0%Z None None None None) /\
   canon_card SC (wenv v0 v1) (" 0", " -1 ", "imp:n=1  mat=2") = Err EUnsupported.
 Proof. split; vm_compute; reflexivity. Qed.
+
+(* ---- when the text of a word-level card reads back: clean tokens ---- *)
+Local Open Scope string_scope.
+(* a character the option normalisation leaves alone and that is not a blank *)
+Definition clean_char (c : ascii) : bool :=
+  negb (is_ws c) && Ascii.eqb (opt_char c) c.
+
+Fixpoint all_clean (s : string) : bool :=
+  match s with EmptyString => true | String c r => clean_char c && all_clean r end.
+
+Definition head_colon (s : string) : bool :=
+  match s with String ":" _ => true | _ => false end.
+
+(* non-empty, clean characters, no colon at either end *)
+Definition clean_tok (t : string) : bool :=
+  match t with EmptyString => false | _ => true end
+  && all_clean t && negb (head_colon t)
+  && negb (match last_char t with Some c => Ascii.eqb c ":" | None => false end).
+
+Lemma clean_not_space c : clean_char c = true -> Ascii.eqb c " " = false /\ is_ws c = false /\ opt_char c = c.
+Proof.
+  unfold clean_char. intros H. apply andb_true_iff in H. destruct H as [H1 H2].
+  apply negb_true_iff in H1. apply Ascii.eqb_eq in H2. repeat split; try assumption.
+  destruct (Ascii.eqb c " ") eqn:E; [|reflexivity]. apply Ascii.eqb_eq in E. subst c. discriminate.
+Qed.
+
+(* smap opt_char fixes clean text with blanks *)
+Lemma smap_clean t : all_clean t = true -> smap opt_char t = t.
+Proof.
+  induction t as [|c r IH]; cbn; intros H; [reflexivity|].
+  apply andb_true_iff in H. destruct H as [Hc Hr].
+  destruct (clean_not_space c Hc) as (_ & _ & Ho). rewrite Ho, IH; auto.
+Qed.
+
+(* words of a clean token followed by the rest *)
+Lemma words_acc_clean t : all_clean t = true -> forall cur rest,
+  words_acc cur (t ++ rest) = words_acc (srev_acc t cur) rest.
+Proof.
+  induction t as [|c r IH]; cbn; intros H cur rest; [reflexivity|].
+  apply andb_true_iff in H. destruct H as [Hc Hr].
+  destruct (clean_not_space c Hc) as (_ & Hw & _). rewrite Hw. apply IH, Hr.
+Qed.
+
+Lemma srev_acc_inv x : forall acc acc', srev_acc (srev_acc x acc) acc' = srev_acc acc (x ++ acc').
+Proof.
+  induction x as [|c r IH]; intros acc acc'; cbn [srev_acc append]; [reflexivity|].
+  rewrite IH. reflexivity.
+Qed.
+
+Lemma sapp_nil_r (s : string) : s ++ "" = s.
+Proof. induction s as [|c r IH]; cbn; [reflexivity|now rewrite IH]. Qed.
+
+Lemma srev_srev_acc x : srev (srev_acc x "") = x.
+Proof. unfold srev. rewrite srev_acc_inv. cbn [srev_acc]. apply sapp_nil_r. Qed.
+
+Lemma srev_acc_nonempty x acc : x <> "" -> srev_acc x acc <> "".
+Proof.
+  destruct x as [|c r]; [congruence|]. intros _. cbn [srev_acc].
+  revert c acc. induction r as [|d r IH]; intros c acc; cbn [srev_acc]; [discriminate|apply IH].
+Qed.
+
+Definition cleanl (toks : list string) : Prop := Forall (fun t => clean_tok t = true) toks.
+
+Lemma clean_tok_parts t : clean_tok t = true ->
+  t <> "" /\ all_clean t = true /\ head_colon t = false /\
+  (match last_char t with Some c => Ascii.eqb c ":" | None => false end) = false.
+Proof.
+  unfold clean_tok. intros H.
+  apply andb_true_iff in H. destruct H as [H H4].
+  apply andb_true_iff in H. destruct H as [H H3].
+  apply andb_true_iff in H. destruct H as [H1 H2].
+  apply negb_true_iff in H3. apply negb_true_iff in H4.
+  repeat split; try assumption. destruct t; [discriminate|discriminate].
+Qed.
+
+Lemma words_join toks : cleanl toks -> words (join toks) = toks.
+Proof.
+  unfold words. induction 1 as [|x r Hx Hr IH]; [reflexivity|].
+  destruct (clean_tok_parts x Hx) as (Hne & Hc & _ & _).
+  destruct r as [|y r'].
+  - cbn [join]. rewrite <- (sapp_nil_r x) at 1. rewrite (words_acc_clean x Hc). cbn [words_acc].
+    destruct (srev_acc x "") eqn:E; [exfalso; exact (srev_acc_nonempty x "" Hne E)|].
+    cbn [map]. rewrite <- E, srev_srev_acc. reflexivity.
+  - change (join (x :: y :: r')) with (x ++ String " " (join (y :: r'))).
+    rewrite (words_acc_clean x Hc). cbn [words_acc]. change (is_ws " ") with true. cbn iota.
+    destruct (srev_acc x "") eqn:E; [exfalso; exact (srev_acc_nonempty x "" Hne E)|].
+    cbn [map]. rewrite <- E, srev_srev_acc. f_equal. exact IH.
+Qed.
+
+Lemma last_char_some s : s <> "" -> exists c, last_char s = Some c.
+Proof.
+  induction s as [|c r IH]; [congruence|]. intros _. destruct r as [|d r'].
+  - exists c. reflexivity.
+  - destruct (IH ltac:(discriminate)) as [x Hx]. exists x. exact Hx.
+Qed.
+
+Lemma squeeze_clean t : all_clean t = true -> t <> "" -> forall after rest,
+  squeeze after (t ++ rest) =
+  t ++ squeeze (match last_char t with Some c => Ascii.eqb c ":" | None => after end) rest.
+Proof.
+  induction t as [|c r IH]; [congruence|]. intros H _ after rest.
+  cbn [all_clean] in H. apply andb_true_iff in H. destruct H as [Hc Hr].
+  destruct (clean_not_space c Hc) as (Hs & _ & _).
+  cbn [append squeeze]. rewrite Hs. f_equal.
+  destruct r as [|d r'].
+  - cbn. reflexivity.
+  - rewrite (IH Hr ltac:(discriminate)).
+    replace (last_char (String c (String d r'))) with (last_char (String d r')) by reflexivity.
+    destruct (last_char_some (String d r') ltac:(discriminate)) as [x Hx]. rewrite Hx. reflexivity.
+Qed.
+
+Lemma leads_colon_clean t rest : all_clean t = true -> t <> "" ->
+  leads_colon (t ++ rest) = head_colon t.
+Proof.
+  destruct t as [|c r]; [congruence|]. intros H _. cbn [all_clean] in H.
+  apply andb_true_iff in H. destruct H as [Hc _].
+  destruct (clean_not_space c Hc) as (Hs & _ & _). cbn [append leads_colon]. rewrite Hs.
+  unfold head_colon. destruct (Ascii.eqb c ":") eqn:E.
+  - apply Ascii.eqb_eq in E. subst c. reflexivity.
+  - destruct c as [[] [] [] [] [] [] [] []]; try reflexivity; discriminate.
+Qed.
+
+Lemma squeeze_join toks : cleanl toks -> squeeze false (join toks) = join toks.
+Proof.
+  induction 1 as [|x r Hx Hr IH]; [reflexivity|].
+  destruct (clean_tok_parts x Hx) as (Hne & Hc & _ & Hl).
+  destruct r as [|y r'].
+  - cbn [join]. rewrite <- (sapp_nil_r x) at 1. rewrite (squeeze_clean x Hc Hne). cbn [squeeze].
+    apply sapp_nil_r.
+  - change (join (x :: y :: r')) with (x ++ String " " (join (y :: r'))).
+    rewrite (squeeze_clean x Hc Hne), Hl. f_equal.
+    cbn [squeeze]. change (Ascii.eqb " " " ") with true. cbn iota.
+    inversion Hr as [|? ? Hy _]; subst. destruct (clean_tok_parts y Hy) as (Hney & Hcy & Hhy & _).
+    assert (Hlc : leads_colon (join (y :: r')) = false).
+    { destruct r' as [|z r'']; [cbn [join]; rewrite <- (sapp_nil_r y)|
+                               change (join (y :: z :: r'')) with (y ++ String " " (join (z :: r'')))];
+        rewrite (leads_colon_clean y _ Hcy Hney); exact Hhy. }
+    rewrite Hlc. cbn [orb]. f_equal. exact IH.
+Qed.
+
+Lemma smap_join toks : cleanl toks -> smap opt_char (join toks) = join toks.
+Proof.
+  induction 1 as [|x r Hx Hr IH]; [reflexivity|].
+  destruct (clean_tok_parts x Hx) as (_ & Hc & _ & _).
+  destruct r as [|y r']; [cbn [join]; apply smap_clean, Hc|].
+  change (join (x :: y :: r')) with (x ++ String " " (join (y :: r'))).
+  rewrite smap_app, (smap_clean x Hc). cbn [smap]. change (opt_char " ") with " "%char.
+  now rewrite IH.
+Qed.
+
+(* text made of clean tokens joined by blanks reads back as these tokens *)
+Theorem tokenize_join toks : cleanl toks -> tokenize (join toks) = toks.
+Proof.
+  intros H. unfold tokenize. rewrite (squeeze_join toks H), (smap_join toks H). exact (words_join toks H).
+Qed.
+
+Theorem card_text_reads_back (mw : list string) (g : string) (toks : list string) :
+  cleanl mw -> cleanl toks -> wcard_of (card_text (mw, g, toks)) = (mw, g, toks).
+Proof.
+  intros Hm Ht. unfold card_text, wcard_of. rewrite (words_join mw Hm), (tokenize_join toks Ht). reflexivity.
+Qed.
